@@ -492,6 +492,13 @@ def main():
                                               "true" if re.search(r"T:[^,>]*Sync", bounds) else "false"))
     L.append("/-- (type, the impl is for Send (else Sync), bound requires T: Send, bound requires T: Sync) -/")
     L.append("def unsafeAutoImpls : List (Adt × Bool × Bool × Bool) := [%s]" % ", ".join(ui))
+    # explicit `impl Unpin for X` (safe to write; switches the structural derivation off)
+    up = []
+    for src in (lib, sig, ptr, internal, fut, mtx):
+        for m in re.finditer(r"\bimpl\s*(<[^>]*>)?\s*(?:\w+::)*Unpin\s+for\s+(\w+)", src):
+            up.append(".%s" % (m.group(2) if m.group(2) in ADTS else "Unknown"))
+    L.append("/-- types with an explicit `impl Unpin` -/")
+    L.append("def unpinImpls : List Adt := [%s]" % ", ".join(up))
     emit_bool("handles_reprC_single_internal", all(
         re.search(r"#\[repr\(C\)\]\s*pub\s+struct\s+" + n + r"<T>\s*\{\s*internal\s*:\s*Internal<T>\s*,?\s*\}", lib) for n in ("Sender", "AsyncSender", "Receiver", "AsyncReceiver")))
     emit_bool("internal_alias_is_arc_mutex", re.sub(r"\s+", "", alias_rhs) == "Arc<Mutex<ChannelInternal<T>>>")
